@@ -262,11 +262,28 @@ func init() {
 			x.callCounter++
 			pt := tup.At(0).Type().(*types.Pointer)
 			obj := x.alloc(fs, VLazy{Typ: pt.Elem(), Name: fmt.Sprintf("url!%d", x.callCounter)})
+			if x.urlOrigin == nil {
+				x.urlOrigin = map[int]Term{}
+			}
+			x.urlOrigin[obj] = x.scalar(fs, c.args[0])
 			x.completeCall(fs, c, VTuple{[]Value{VPtr{Nil: TFalse, Loc: &Loc{Obj: obj}, Typ: pt}, VIface{Nil: TTrue, Typ: errType()}}})
 		}
 		return true
 	})
-	reg("(*net/url.URL).String", "uninterpreted string", noop)
+	// string-valued methods of a parsed URL: uninterpreted functions of the text it was parsed from (each
+	// method its own function: String and Redacted are not the same function)
+	for _, m := range []string{"String", "Redacted", "Hostname", "Port", "RequestURI", "EscapedPath", "EscapedFragment"} {
+		m := m
+		reg("(*net/url.URL)."+m, "an uninterpreted function url."+m+" of the text the URL was parsed from", func(x *Exec, st *State, fr *Frame, c *callCtx) bool {
+			if p, ok := x.force(st, c.args[0]).(VPtr); ok && p.Loc != nil {
+				if origin, ok := x.urlOrigin[p.Loc.Obj]; ok {
+					f := x.sym.Func("url."+m, []Sort{SStr}, SStr)
+					return x.finish(st, fr, c, VScalar{App(SStr, f, origin)})
+				}
+			}
+			return x.finish(st, fr, c, x.symbolicResult(st, c))
+		})
+	}
 	reg("bytes.NewReader", "a reader over the given bytes", func(x *Exec, st *State, fr *Frame, c *callCtx) bool {
 		return x.finish(st, fr, c, x.newBox(st, c.common.Signature().Results().At(0).Type(), x.force(st, c.args[0])))
 	})
@@ -322,6 +339,12 @@ func init() {
 		return x.finish(st, fr, c, VScalar{App(SInt, "goquo", d, IntLit(1000000))})
 	})
 	reg("time.Now", "opaque", noop)
+	reg("time.After", "a channel that delivers once the duration has elapsed: an open, non-nil channel", func(x *Exec, st *State, fr *Frame, c *callCtx) bool {
+		x.callCounter++
+		t := c.ret.Type()
+		obj := x.alloc(st, &ChanObj{Typ: t, Cap: IntLit(1), Name: fmt.Sprintf("time.After!%d", x.callCounter)})
+		return x.finish(st, fr, c, VChan{Nil: TFalse, Obj: obj, Typ: t, Id: x.sym.Fresh("chan.id", SErr)})
+	})
 	reg("(time.Time).UnixMilli", "unconstrained int64", noop)
 
 	// uuid
@@ -585,6 +608,11 @@ func (x *Exec) decodeStore(s *State, p VPtr, elemT types.Type, data VBytes) {
 			obj := x.alloc(s, VLazy{Typ: pt.Elem(), Name: name})
 			x.store(s, p.Loc, VPtr{Nil: isNull, Loc: &Loc{Obj: obj}, Typ: elemT})
 			x.decodedFrom(s, obj, pt.Elem(), data.B, name)
+		} else if b, isBasic := elemT.Underlying().(*types.Basic); isBasic && b.Kind() == types.String {
+			// a JSON string decodes to a function of the bytes (json.str), so that two decodes agree and a
+			// contract can name the decoded text
+			f := x.sym.Func("json.str", []Sort{SBytes}, SStr)
+			x.store(s, p.Loc, VScalar{App(SStr, f, data.B)})
 		} else {
 			x.callCounter++
 			name := fmt.Sprintf("json.decoded!%d", x.callCounter)
